@@ -6,6 +6,12 @@ From Grenad.model Require Import Base Varint Block Trailer Reader Spec Format.
 From Grenad.proofs Require Import BaseProofs BlockProofs FormatProofs BlockCursorProofs.
 Ltac Zify.zify_post_hook ::= Z.div_mod_to_equations.
 
+Lemma bytes_eqb_neq_ltb q k : bytes_leb q k = true -> bytes_eqb k q = false -> bytes_ltb q k = true.
+Proof.
+  intros H1 H2. destruct (bytes_total q k) as [H|[->|H]]; [exact H| |rewrite bytes_leb_ltb, H in H1; discriminate].
+  assert (E : bytes_eqb k k = true) by (apply bytes_eqb_eq; reflexivity). rewrite E in H2. discriminate.
+Qed.
+
 Section Refine.
   Variable ld : N -> N -> outcome block.
   Variable root : N.
@@ -885,7 +891,7 @@ Section Refine.
       cs_loads st <= cs_loads st' <= cs_loads st + N.of_nat (S D) /\
       if Nat.ltb 0 i
       then Pos st' (i - 1) /\ r = nth_error (lseq D) (i - 1)
-      else r = None /\ Coh st'.
+      else r = None /\ Coh st' /\ cs_data st' = cs_data st.
   Proof.
     intros (lv & dc & o & Ei & Hlen & Hcoh & Ed & Hp).
     assert (HD : D = S (D - 1)) by (unfold D; lia).
@@ -932,7 +938,8 @@ Section Refine.
         eexists _, _. split; [reflexivity|]. cbn [cs_loads]. split; [lia|].
         assert (gp = 0%nat) by lia. subst gp. rewrite gstart_0 in Hg0.
         destruct (Nat.ltb_spec 0 i); [lia|].
-        split; [reflexivity|]. unfold Coh. cbn [cs_inner]. split; [rewrite rev_length; exact Hlen'|exact Hcoh'].
+        split; [reflexivity|]. split; [unfold Coh; cbn [cs_inner]; split; [rewrite rev_length; exact Hlen'|exact Hcoh']|].
+        cbn [cs_data]. first [reflexivity | symmetry; exact Ed].
     - (* inside the data block *)
       destruct (nth_error es (j - 1)) as [kv|] eqn:En; [|apply nth_error_None in En; lia].
       eexists _, _. split; [reflexivity|]. cbn [cs_loads]. split; [lia|].
@@ -1091,7 +1098,7 @@ Section Refine.
       destruct (c_prev_spec st (N.to_nat i) HR) as (st' & r & E & Hn & Hres).
       exists st', r. split; [exact E|]. cbn [aspec]. fold es_all in Hres.
       destruct (N.eqb_spec i 0) as [->|Hi].
-      + cbn [N.to_nat Nat.ltb Nat.leb] in Hres. destruct Hres as [Hr Hc].
+      + cbn [N.to_nat Nat.ltb Nat.leb] in Hres. destruct Hres as [Hr [Hc _]].
         cbn [at_result fst snd Rel res_ok]. split; [exact Hc|]. split; [exact Hr|lia].
       + destruct (Nat.ltb_spec 0 (N.to_nat i)); [|lia]. destruct Hres as [Hp' Hr].
         replace (i - 1) with (N.of_nat (N.to_nat i - 1)) by lia. rewrite nthN_nat.
@@ -1338,7 +1345,7 @@ Section Refine.
         destruct (c_prev_spec st1 c Hp) as (st2 & r2 & E2 & Hn2 & Hres2). rewrite E2.
         eexists _, _. split; [reflexivity|]. rewrite Hgt.
         destruct (Nat.eqb_spec c 0) as [Hc0|Hc0].
-        * rewrite Hc0 in Hres2. cbn [Nat.ltb Nat.leb] in Hres2. destruct Hres2 as [Hr2 Hc2].
+        * rewrite Hc0 in Hres2. cbn [Nat.ltb Nat.leb] in Hres2. destruct Hres2 as [Hr2 [Hc2 _]].
           cbn [at_result fst snd Rel res_ok]. split; [exact Hc2|]. split; [exact Hr2|lia].
         * destruct (Nat.ltb_spec 0 c); [|lia]. destruct Hres2 as [Hp2 Hr2]. fold es_all in Hr2.
           destruct (nth_error es_all (c - 1)) as [e|] eqn:En; [|apply nth_error_None in En; lia].
@@ -1365,6 +1372,46 @@ Section Refine.
       assert (Hkq : bytes_leb k q = true).
       { rewrite bytes_leb_ltb. rewrite bytes_leb_ltb in Hlast. apply Bool.negb_false_iff in Hlast. rewrite (ltb_asym _ _ Hlast). reflexivity. }
       rewrite Hkq. reflexivity.
+  Qed.
+
+  (* a lower-or-equal seek that finds nothing (every key is above q) leaves the data cursor on the
+     first entry: `current` then returns that entry, whose key is above q (what the reverse prefix
+     iterator relies on) *)
+  Theorem le_none_current p st q : Rel p st ->
+    forall st', cstep ld root levels st (OLe q) = Done (st', None) ->
+    exists e, cstep ld root levels st' OCurrent = Done (st', Some e) /\ In e es_all /\ bytes_ltb q (fst e) = true.
+  Proof.
+    intros HR st' Hle. cbn [cstep] in Hle. unfold c_le in Hle. rewrite c_ge_abs in Hle.
+    destruct (abs_op_spec (MGe q) true st (abs_ge q) (Rel_Coh p st HR)) as (st1 & r1 & E1 & Hn1 & Hres).
+    rewrite E1 in Hle. cbn [bind] in Hle. rewrite sroot_ge in Hres. cbv zeta in Hres.
+    set (c := ceil_pos es_all q) in *.
+    pose proof (first_stop_props (fun kk => bytes_leb q kk) es_all) as (G1 & G2 & G3). cbv zeta in G1, G2, G3.
+    fold (fs_ge q es_all 0) in G1, G2, G3. fold (ceil_pos es_all q) in G1, G2, G3. fold c in G1, G2, G3.
+    destruct (Nat.ltb_spec c (length es_all)) as [Hlt|Hge].
+    - destruct Hres as [Hp Hr]. fold es_all in Hr.
+      destruct (nth_error es_all c) as [[k v]|] eqn:Ec; [|apply nth_error_None in Ec; lia].
+      subst r1. destruct (bytes_eqb k q) eqn:Eq; [discriminate|].
+      destruct (c_prev_spec st1 c Hp) as (st2 & r2 & E2 & Hn2 & Hres2). rewrite E2 in Hle. injection Hle as <- ->.
+      destruct (Nat.ltb_spec 0 c) as [Hc0|Hc0].
+      + destruct Hres2 as [_ Hr2]. fold es_all in Hr2.
+        destruct (nth_error es_all (c - 1)) eqn:En; [discriminate|apply nth_error_None in En; lia].
+      + destruct Hres2 as (_ & _ & Hd). assert (c = 0%nat) by lia.
+        exists (k, v). cbn [cstep]. unfold c_current. rewrite Hd.
+        pose proof Hp as (lv & dc & o & Ei & Hlen & Hcoh & Ed & Hpos). rewrite Ed.
+        pose proof (positioned_current _ _ _ Hpos) as Hcur. cbn [rev] in Hcur.
+        unfold last_current in Hcur. rewrite last_opt_snoc in Hcur. rewrite Hcur. cbn [bind].
+        fold es_all. rewrite Ec. split; [reflexivity|]. split; [eapply nth_error_In; exact Ec|]. cbn [fst].
+        pose proof (G3 k v eq_refl) as Hle'. apply bytes_eqb_neq_ltb; assumption.
+    - destruct Hres as [Hr1 Hc1]. subst r1. rewrite c_first_last_abs in Hle.
+      destruct (abs_op_spec MLast false st1 abs_last Hc1) as (st2 & r2 & E2 & Hn2 & Hres2). rewrite E2 in Hle. cbn [bind] in Hle.
+      rewrite sroot_last in Hres2. destruct Hres2 as [Hp2 Hr2]. fold es_all in Hp2, Hr2.
+      pose proof (lseq_nonempty D ltac:(lia)) as Hne. fold es_all in Hne.
+      assert (Hl : (0 < length es_all)%nat) by (destruct es_all; [congruence|cbn [length]; lia]).
+      destruct (nth_error es_all (length es_all - 1)) as [[k v]|] eqn:En; [|apply nth_error_None in En; lia].
+      subst r2. pose proof (G2 (length es_all - 1)%nat k v ltac:(lia) En) as Hlast.
+      assert (Hkq : bytes_leb k q = true).
+      { rewrite bytes_leb_ltb. rewrite bytes_leb_ltb in Hlast. apply Bool.negb_false_iff in Hlast. rewrite (ltb_asym _ _ Hlast). reflexivity. }
+      rewrite Hkq in Hle. discriminate.
   Qed.
 
   (* ================= one step, and whole histories ================= *)
@@ -1466,6 +1513,16 @@ Theorem R_history ld root levels bstore : wf_store ld root levels bstore ->
 Proof.
   intros [H1 H2 (rb & rridx & H3) H4 H5 H6].
   exact (history_refines ld root bstore H1 rb rridx H3 levels H4 H2 H5 H6).
+Qed.
+
+Theorem R_le_none ld root levels bstore : wf_store ld root levels bstore ->
+  forall p st q, Rel root bstore levels p st ->
+  forall st', cstep ld root levels st (OLe q) = Done (st', None) ->
+  exists e, cstep ld root levels st' OCurrent = Done (st', Some e) /\ In e (content root levels bstore) /\
+            bytes_ltb q (fst e) = true.
+Proof.
+  intros [H1 H2 (rb & rridx & H3) H4 H5 H6].
+  exact (le_none_current ld root bstore H1 rb rridx H3 levels H4 H2 H5 H6).
 Qed.
 
 (* ================= full scans (C01): next from a fresh cursor yields the content in order, then None;
